@@ -41,6 +41,7 @@ def smoothStep (st : St2) (line : String) : IO St2 := do
     let ax := fieldAbs l.nt x; let af := fieldAbs l.nt f; let ao := fieldAbs l.nt out
     let tag := s!"{if ex then "extrapolated " else ""}smoother {(kv rest "strat").getD ""} threads={(kv rest "threads").getD ""} nr={l.nr} nt={l.nt} nc={l.nc} bc={l.bc} geo={l.geo} coef={l.coef}"
     let mut bad : Option (Nat × Nat) := none
+    let mut badLast : Option (Nat × Nat) := none
     let mut worst := st.worst
     let mut st := st
     for i in [0:l.nr] do
@@ -57,11 +58,19 @@ def smoothStep (st : St2) (line : String) : IO St2 := do
           let s := (take l.opAbs af (mix l.nc p ax ao) i j).v
           if s > 0 ∧ d / s > worst then worst := d / s
           if d > tol30 * s ∧ bad.isNone then bad := some (i, j)
+          -- phase 4 (white radial lines) is updated last: there the mixed iterate IS the output, and the sweep equation is the
+          -- property's own clause "the residual vanishes on every line of the colour updated last"
+          if d > tol30 * s ∧ p == 4 ∧ badLast.isNone then badLast := some (i, j)
           if isDirichlet l i ∧ out.getD (i * l.nt + j) 0 != f.getD (i * l.nt + j) 0 then
             IO.println s!"ORACLE C06 {tag}: Dirichlet node ({i},{j}) does not carry the boundary data after the sweep"
             st := { st with oracleFails := st.oracleFails + 1 }
     let stats ← check st.stats bad.isNone fun _ =>
       let q := bad.getD (0, 0); s!"{tag}: sweep equation violated at node ({q.1},{q.2}) (phase {phase l.nc q.1 q.2}) beyond 2^-30·S"
+    match badLast with
+    | some q =>
+      IO.println s!"ORACLE {if ex then "C07" else "C06"} {tag}: after the sweep the residual does not vanish at node ({q.1},{q.2}) of a white radial line (the colour updated last) x={(kv rest "x").getD ""} f={(kv rest "f").getD ""}"
+      st := { st with oracleFails := st.oracleFails + 1 }
+    | none => pure ()
     -- both strategies / thread counts give the same sweep
     let key := s!"{(kv rest "x").getD ""}|{ex}"
     if key == st.lastKey then
